@@ -4,6 +4,7 @@
 // Output: one compact line per cell:  <index> <A|R> <shots_ok> <wf_fail_key|-> <error text>
 #include <cstdlib>
 #include <fstream>
+#include <functional>
 #include <limits>
 #include <sstream>
 
@@ -88,6 +89,36 @@ int main(int argc, char ** argv)
       }
       if (acc2 != accepted) err = std::string("HISTORY-DEPENDENT-VERDICT: a generator object used before ") + (acc2 ? "accepts" : "rejects (" + err2.substr(0, 80) + ")") + "; fresh object: " + err;
     }
+    {
+      // the request is the set of settings, not the order of the setter calls: the same five setters in a permuted order (every third
+      // request also passes through the other category first) must get the same verdict
+      bxdecay0::decay0_generator perm;
+      std::vector<std::function<void()>> calls;
+      calls.push_back([&] { perm.set_decay_category(bxdecay0::decay0_generator::DECAY_CATEGORY_DBD); });
+      calls.push_back([&] { perm.set_decay_isotope(name); });
+      calls.push_back([&] { perm.set_decay_dbd_level(level); });
+      calls.push_back([&] { perm.set_decay_dbd_mode((bxdecay0::dbd_mode_type)mode); });
+      if (wkind) calls.push_back([&] { perm.set_decay_dbd_esum_range(e1, e2); });
+      uint64_t h = hash_str(line) ^ seed;
+      for (size_t i = calls.size(); i > 1; i--) {
+        std::swap(calls[i - 1], calls[h % i]);
+        h /= i;
+      }
+      bool acc3 = false;
+      std::string err3;
+      try {
+        if (idx % 3 == 0) perm.set_decay_category(bxdecay0::decay0_generator::DECAY_CATEGORY_BACKGROUND);
+        for (auto & c : calls) c();
+        Tape t3(seed, (uint64_t)idx);
+        perm.initialize(t3);
+        acc3 = perm.is_initialized();
+      } catch (std::exception & x) {
+        err3 = x.what();
+      }
+      if (acc3 != accepted && err.find("HISTORY-DEPENDENT") == std::string::npos)
+        err = std::string("ORDER-DEPENDENT-VERDICT: the same settings given in another order of setter calls are ") + (acc3 ? "accepted" : "rejected (" + err3.substr(0, 80) + ")") + "; documented order: "
+              + (accepted ? "accepted" : err);
+    }
     if (accepted) {
       for (int i = 0; i < nshots; i++) {
         bxdecay0::event e;
@@ -117,7 +148,7 @@ int main(int argc, char ** argv)
     }
     for (auto & c : err)
       if (c == '\n') c = ' ';
-    fprintf(OUT, "%ld %c %d %s %s\n", idx, accepted ? 'A' : 'R', shots_ok, wf.c_str(), err.substr(0, 160).c_str());
+    fprintf(OUT, "%ld %c %d %s %s\n", idx, accepted ? 'A' : 'R', shots_ok, wf.c_str(), err.substr(0, 260).c_str());
   }
   return 0;
 }
